@@ -14,6 +14,7 @@ import (
 	"github.com/aws/aws-sdk-go/service/dynamodb/dynamodbiface"
 	"github.com/truora/minidyn/core"
 	"github.com/truora/minidyn/interpreter"
+	"github.com/truora/minidyn/interpreter/language"
 )
 
 const (
@@ -760,6 +761,12 @@ func validateExpressionAttributes(exprNames map[string]*string, exprValues map[s
 	err = validateSyntaxExpression(expressionAttributeValuesRegex, flattenValues, invalidExpressionAttributeValue)
 	if err != nil {
 		return err
+	}
+
+	for _, placeholder := range language.PlaceholdersIn(genericExpression) {
+		if _, ok := exprNames[placeholder]; !ok && placeholder[0] == '#' {
+			return awserr.New("ValidationException", "Invalid expression: An expression attribute name used in the document path is not defined; attribute name: "+placeholder, nil)
+		}
 	}
 
 	return nil
